@@ -879,14 +879,16 @@ func vGenBook(t *rapid.T, o vBookOpts, label string) (vDoc, vBookInfo) {
 	if !o.NoTwins && o.MaxDepth >= 3 && len(basics) > 0 && rapid.IntRange(0, 7).Draw(t, label+".unfold") == 0 {
 		plain := vLayout{Indent: "  ", Sep: ": ", EOL: "\n"}
 		e := basics[rapid.IntRange(0, len(basics)-1).Draw(t, label+".unfoldel")]
-		k := rapid.IntRange(3, 12).Draw(t, label+".unfoldn")
+		k := []int{3, 4, 5, 8, 12, 31, 32, 33, 40, 64, 100}[rapid.IntRange(0, 10).Draw(t, label+".unfoldn")]
 		inner := vRec{Head: "unfold~t", HL: vLayout{EOL: "\n"}}
 		for i := 0; i < k; i++ {
 			inner.Lines = append(inner.Lines, vLine{Kind: vkEntry, Name: fmt.Sprintf("unfold~el%02d", i), Num: fmt.Sprint(i + 1), L: plain})
 		}
 		recs = append(recs, inner,
 			vRec{Head: "unfold~s", HL: vLayout{EOL: "\n"}, Lines: []vLine{{Kind: vkEntry, Name: "unfold~t", Num: "2", L: plain}}},
-			vRec{Head: "unfold~top", HL: vLayout{EOL: "\n"}, Lines: []vLine{{Kind: vkEntry, Name: e, Num: "1", L: plain}, {Kind: vkEntry, Name: "unfold~s", Num: "3", L: plain}, {Kind: vkEntry, Name: e, Num: "4", L: plain}}})
+			vRec{Head: "unfold~top", HL: vLayout{EOL: "\n"}, Lines: []vLine{{Kind: vkEntry, Name: e, Num: "1", L: plain}, {Kind: vkEntry, Name: "unfold~s", Num: "3", L: plain}, {Kind: vkEntry, Name: e, Num: "4", L: plain}}},
+			// a few plain ingredients first, then the wide sub-recipe itself
+			vRec{Head: "unfold~flat", HL: vLayout{EOL: "\n"}, Lines: []vLine{{Kind: vkEntry, Name: e, Num: "1", L: plain}, {Kind: vkEntry, Name: "unfold~el00", Num: "2", L: plain}, {Kind: vkEntry, Name: "unfold~other", Num: "5", L: plain}, {Kind: vkEntry, Name: "unfold~t", Num: "2", L: plain}}})
 		nrec = len(recs)
 	}
 	// declaration order: random permutation
